@@ -242,6 +242,16 @@ def run(job, ctx):
             check(m, q, expr, ref, want, typ, ctx, cls, datepart)
             if job['part'] == 'composed' and i % 3 == 0:
                 check(m, '   ' + q + ' ', expr, ref, want, typ, ctx, cls, datepart)      # blanks around the sentence
+            if job['part'] == 'composed' and i % 4 == 0:
+                # asked again after the same expression was asked WITH a modifier under the same reference object: same answer
+                first = dtlib.view(m.parse(q, ref))
+                m.parse('before ' + q, ref)
+                m.parse('since ' + q, ref)
+                again = dtlib.view(m.parse(q, ref))
+                ctx.event('repeat_after_modifier_runs')
+                if again != first:
+                    ctx.fail('answer-changes-after-a-modifier-call', {'model': 'DateTimeModel', 'culture': 'en-us', 'cls': cls}, 'en-us|repeat|%s|%s' % (q, ref.isoformat()),
+                             {'query': q, 'expr': expr, 'reference': ref.isoformat(), 'want': [list(w) for w in want], 'type': typ, 'cls': cls, 'datepart': datepart}, first, again)
 
 
 def replay_case(fail, ctx):
